@@ -62,7 +62,38 @@ pub(crate) fn add_type_annotation(
     result.push_str(&candidate.annotation);
     result.push_str(&src[candidate.insert_offset..]);
 
+    // The inferred type can be more precise than what the rest of the
+    // code supports (e.g. one `match` case has an `Any` component).
+    // Don't offer an annotation that the type checker then rejects.
+    let errors_before = type_errors(&summary);
+    for error in type_errors_of_src(&result, path) {
+        if !errors_before.contains(&error) {
+            return Err("The inferred type does not type check as an annotation here.".to_owned());
+        }
+    }
+
     Ok(result)
+}
+
+/// The messages of the errors found by the type checker.
+fn type_errors(summary: &crate::checks::type_checker::TCSummary) -> Vec<String> {
+    summary
+        .diagnostics
+        .iter()
+        .filter(|d| matches!(d.severity, crate::diagnostics::Severity::Error))
+        .map(|d| d.message.as_string())
+        .collect()
+}
+
+fn type_errors_of_src(src: &str, path: &Path) -> Vec<String> {
+    let mut id_gen = IdGenerator::default();
+    let (vfs, vfs_path) = Vfs::singleton(path.to_owned(), src.to_owned());
+    let (items, _errors) = parse_toplevel_items(&vfs_path, src, &mut id_gen);
+
+    let mut env = Env::new(id_gen, vfs);
+    let ns = env.get_or_create_namespace(path);
+    load_toplevel_items(&items, &mut env, Rc::clone(&ns));
+    type_errors(&check_types(&vfs_path, &items, &env, ns))
 }
 
 /// A place where a type annotation could be inserted.
